@@ -88,7 +88,8 @@ def theory_targets(texts):
     """.vo targets under coq/theories required by `From Tangelo Require Import A.B C.D.` lines."""
     t = set()
     for txt in texts:
-        for m in re.finditer(r"From\s+Tangelo\s+Require\s+(?:Import|Export)\s+([^.]*(?:\.[A-Za-z_][\w.]*)*)\s*\.\s", strip_coq_comments(txt) + " "):
+        for m in re.finditer(r"From\s+Tangelo\s+Require\s+(?:Import|Export)\s+(.*?)\.(?=\s|$)",
+                             strip_coq_comments(txt), flags=re.S):
             for name in m.group(1).split():
                 rel = name.replace(".", "/") + ".v"
                 if (THEORIES / rel).exists():
